@@ -1728,6 +1728,9 @@ class PseudoNetCDFFile(PseudoNetCDFSelfReg, object):
                             axis=di, keepdims=True)
                     else:
                         newvals = np.apply_along_axis(**opts)
+                        if newvals.ndim < varo.ndim:
+                            # func1d returned a scalar: keep the reduced axis
+                            newvals = np.expand_dims(newvals, di)
             newvaro = outf.copyVariable(varo, key=vark, dtype=newvals.dtype,
                                         withdata=False)
             newvaro[...] = newvals
